@@ -84,9 +84,9 @@ def judge(h, parsed, rc, timed_out, out):
     tags = set(h.get("tags", []))
     # twin covers of the `check!` oracles (cover of the negated assertion, same description): they are satisfied exactly
     # when the assertion fails, exist only to obtain a concrete-playback test, and are no vacuity witnesses
-    twin_descs = {c["desc"] for c in asserts}
+    twin_descs = {c["desc"].strip('"') for c in asserts}
     for c in covers:
-        if c["desc"] in twin_descs:
+        if c["desc"].strip('"') in twin_descs:
             continue
         m = re.match(r"\[([\w-]+)\]", c["desc"])
         if m and not (set(m.group(1).split("-")) <= tags):
